@@ -626,3 +626,222 @@ Proof.
   unfold name_ok in H. apply andb_prop in H. destruct H as [H1 H2]. split; [apply list_eqb_eq, H1|].
   intros Hr. rewrite Hr in H2. lia.
 Qed.
+
+(* ================================================================= 9. C13: convert_channel *)
+(* everything the property says about one channel, for one (from bits, to bits, value), as a boolean *)
+Definition cc_check (fb tb v : Z) : bool :=
+  let fm := 2 ^ fb - 1 in let tm := 2 ^ tb - 1 in
+  let r := convert_channel fm tm v in
+  (0 <=? r) && (r <=? tm)
+  && (2 * Z.abs (r * fm - v * tm) <=? fm)                               (* nearest *)
+  && (if v =? 0 then r =? 0 else true) && (if v =? fm then r =? tm else true)   (* ends *)
+  && (if fb <=? tb then convert_channel tm fm r =? v else true)          (* widen, then narrow *)
+  && (v * (Z.shiftl tm cc_shift / fm) + Z.shiftl cc_half_base (cc_shift - cc_half_sub) <? 2 ^ 32)  (* u32 *)
+  && (Z.shiftl tm cc_shift <? 2 ^ 32).
+
+Lemma cc_check_all_true :
+  forallb (fun fb => forallb (fun tb => forallb (cc_check fb tb) (range 0 (2 ^ fb))) (range 1 9)) (range 1 9) = true.
+Proof. vm_cast_no_check (eq_refl true). Qed.
+
+Lemma forallb_range (P : Z -> bool) a b x : forallb P (range a b) = true -> a <= x < b -> P x = true.
+Proof. intros H Hx. rewrite forallb_forall in H. apply H, In_range, Hx. Qed.
+
+Lemma cc_check_true fb tb v : 1 <= fb <= 8 -> 1 <= tb <= 8 -> 0 <= v <= 2 ^ fb - 1 -> cc_check fb tb v = true.
+Proof.
+  intros Hf Ht Hv.
+  assert (Hf' : 1 <= fb < 9) by lia. assert (Ht' : 1 <= tb < 9) by lia. assert (Hv' : 0 <= v < 2 ^ fb) by lia.
+  pose proof (forallb_range _ 1 9 fb cc_check_all_true Hf') as H1. cbv beta in H1.
+  pose proof (forallb_range _ 1 9 tb H1 Ht') as H2. cbv beta in H2.
+  exact (forallb_range _ 0 (2 ^ fb) v H2 Hv').
+Qed.
+
+Lemma cc_spec fb tb v : 1 <= fb <= 8 -> 1 <= tb <= 8 -> 0 <= v <= 2 ^ fb - 1 ->
+  let fm := 2 ^ fb - 1 in let tm := 2 ^ tb - 1 in
+  let r := convert_channel fm tm v in
+  0 <= r <= tm /\ 2 * Z.abs (r * fm - v * tm) <= fm /\
+  (v = 0 -> r = 0) /\ (v = fm -> r = tm) /\ (fb <= tb -> convert_channel tm fm r = v) /\
+  v * (Z.shiftl tm cc_shift / fm) + Z.shiftl cc_half_base (cc_shift - cc_half_sub) < 2 ^ 32.
+Proof.
+  intros Hf Ht Hv fm tm r. pose proof (cc_check_true fb tb v Hf Ht Hv) as H. unfold cc_check in H.
+  fold fm tm in H. fold r in H.
+  repeat (apply andb_prop in H; let H' := fresh in destruct H as [H H']).
+  repeat split; try lia.
+  - intros ->. rewrite Z.eqb_refl in *. lia.
+  - intros E. rewrite E, Z.eqb_refl in *. lia.
+  - intros E. apply Z.leb_le in E. rewrite E in *. lia.
+Qed.
+
+(* rounding to nearest is monotone (from cc_spec, no further computation) *)
+Lemma cc_mono fb tb v1 v2 : 1 <= fb <= 8 -> 1 <= tb <= 8 -> 0 <= v1 -> v1 <= v2 -> v2 <= 2 ^ fb - 1 ->
+  convert_channel (2 ^ fb - 1) (2 ^ tb - 1) v1 <= convert_channel (2 ^ fb - 1) (2 ^ tb - 1) v2.
+Proof.
+  intros Hf Ht H0 H12 H2.
+  destruct (Z.eq_dec v1 v2) as [-> | Hne]; [lia|].
+  destruct (cc_spec fb tb v1 Hf Ht ltac:(lia)) as (_ & N1 & _).
+  destruct (cc_spec fb tb v2 Hf Ht ltac:(lia)) as (_ & N2 & _).
+  cbv zeta in *.
+  assert (1 <= 2 ^ fb - 1) by (pose proof (Z.pow_le_mono_r 2 1 fb); lia).
+  assert (1 <= 2 ^ tb - 1) by (pose proof (Z.pow_le_mono_r 2 1 tb); lia).
+  generalize dependent (convert_channel (2 ^ fb - 1) (2 ^ tb - 1) v1).
+  generalize dependent (convert_channel (2 ^ fb - 1) (2 ^ tb - 1) v2).
+  generalize dependent (2 ^ fb - 1). generalize dependent (2 ^ tb - 1).
+  intros tm Htm fm Hfm Hv2 r2 N2 r1 N1.
+  destruct (Z_le_gt_dec r1 r2); [assumption|exfalso].
+  assert ((v2 - v1) * tm >= tm) by nia. nia.
+Qed.
+
+(* ================================================================= 10. C13: rows and pairs of the regenerated table *)
+Definition rawrow_eq_dec (x y : rawrow) : {x = y} + {x <> y}.
+Proof. decide equality; try apply Z.eq_dec; apply (list_eq_dec Z.eq_dec). Defined.
+Definition ckind_eq_dec (x y : ckind) : {x = y} + {x <> y}.
+Proof. decide equality; try apply Z.eq_dec. decide equality. Defined.
+Definition crow_eq_dec (x y : crow) : {x = y} + {x <> y}.
+Proof. decide equality; [apply rawrow_eq_dec | apply ckind_eq_dec | apply (list_eq_dec Z.eq_dec) | apply Z.eq_dec]. Defined.
+Definition crow_eqb (x y : crow) : bool := if crow_eq_dec x y then true else false.
+Definition in_table (t : crow) : bool := existsb (crow_eqb t) color_table.
+
+Lemma in_table_In t : in_table t = true -> In t color_table.
+Proof.
+  unfold in_table. rewrite existsb_exists. intros (x & Hx & E). unfold crow_eqb in E.
+  destruct (crow_eq_dec t x); [subst; assumption | discriminate].
+Qed.
+
+Definition is_bin (t : crow) : bool := match c_kind t with KBinary => true | _ => false end.
+Definition chan_pos (t : crow) : bool :=
+  match c_kind t with KRgb _ r g b => (1 <=? r) && (1 <=? g) && (1 <=? b) | _ => true end.
+(* a row with the id of via_rgb / via_gray IS that row (ids are the model of type identity in into_or) *)
+Definition id_ok (t : crow) : bool :=
+  (if c_id t =? c_id via_rgb then crow_eqb t via_rgb else true) &&
+  (if c_id t =? c_id via_gray then crow_eqb t via_gray else true).
+Definition good_row (t : crow) : bool := row_wf t && chan_pos t && id_ok t && in_table t.
+Definition family_kinds (f : family) (a b : crow) : bool :=
+  match f with
+  | FRgbRgb => is_rgb a && is_rgb b
+  | FGrayGray => is_gray a && is_gray b
+  | FGrayRgb => is_gray a && is_rgb b
+  | FRgbGray => is_rgb a && is_gray b
+  | FBinAny => is_bin a && (is_rgb b || is_gray b)
+  | FGrayBin => is_gray a && is_bin b
+  | FRgbBin => is_rgb a && is_bin b
+  end.
+Definition pair_wf (p : family * crow * crow) : bool :=
+  let '(f, a, b) := p in
+  good_row a && good_row b && negb (c_id a =? c_id b) && family_kinds f a b.
+
+Lemma pairs_wf : forallb pair_wf conv_pairs = true.
+Proof. vm_cast_no_check (eq_refl true). Qed.
+
+Lemma pair_facts f a b : In (f, a, b) conv_pairs ->
+  good_row a = true /\ good_row b = true /\ c_id a <> c_id b /\ family_kinds f a b = true.
+Proof.
+  intros H. pose proof (proj1 (forallb_forall _ conv_pairs) pairs_wf _ H) as W. unfold pair_wf in W.
+  apply andb_prop in W. destruct W as [W W4]. apply andb_prop in W. destruct W as [W W3].
+  apply andb_prop in W. destruct W as [W1 W2].
+  split; [exact W1|]. split; [exact W2|]. split; [|exact W4].
+  intros E. rewrite E, Z.eqb_refl in W3. discriminate.
+Qed.
+
+Lemma good_row_facts t : good_row t = true -> row_wf t = true /\ chan_pos t = true /\ id_ok t = true /\ In t color_table.
+Proof.
+  unfold good_row. intros W.
+  apply andb_prop in W. destruct W as [W W4]. apply andb_prop in W. destruct W as [W W3].
+  apply andb_prop in W. destruct W as [W1 W2].
+  repeat split; auto. apply in_table_In. assumption.
+Qed.
+
+(* the two types the rgb -> gray / binary conversions go through: Rgb888 and Gray8 *)
+Lemma via_facts :
+  good_row via_rgb = true /\ is_rgb via_rgb = true /\ max_r via_rgb = 255 /\ max_g via_rgb = 255 /\ max_b via_rgb = 255 /\
+  good_row via_gray = true /\ is_gray via_gray = true /\ max_luma via_gray = 255 /\ bpp via_gray = 8.
+Proof. vm_compute. repeat split; reflexivity. Qed.
+
+Lemma rgb_max t : row_wf t = true -> chan_pos t = true -> is_rgb t = true ->
+  (1 <= rbits t <= 8 /\ max_r t = 2 ^ rbits t - 1) /\
+  (1 <= gbits t <= 8 /\ max_g t = 2 ^ gbits t - 1) /\
+  (1 <= bbits t <= 8 /\ max_b t = 2 ^ bbits t - 1).
+Proof.
+  intros H Hp Hr. destruct (is_rgb_kind t Hr) as (o & rb & gb & bb & Hk).
+  destruct (rgb_bits t o rb gb bb Hk) as (-> & -> & -> & _).
+  destruct (wf_rgb t o rb gb bb H Hk). unfold chan_pos in Hp. rewrite Hk in Hp.
+  rewrite rf_maxr0, rf_maxg0, rf_maxb0, !Z.ones_equiv. lia.
+Qed.
+
+Lemma gray_max t : row_wf t = true -> is_gray t = true ->
+  1 <= bpp t <= 8 /\ max_luma t = 2 ^ bpp t - 1 /\ (forall c, valid t c <-> 0 <= luma_of t c <= max_luma t).
+Proof.
+  intros H Hg. unfold is_gray in Hg. destruct (c_kind t) eqn:Hk; try discriminate.
+  destruct (wf_gray t H Hk) as (Hb & Hm & Hu). rewrite Hm, Z.ones_equiv.
+  split; [lia|]. split; [lia|]. intros c. unfold valid, luma_of. rewrite Hu. lia.
+Qed.
+
+(* channels of a valid rgb colour are within their maxima *)
+Lemma rgb_chan_range t c : row_wf t = true -> is_rgb t = true -> valid t c ->
+  0 <= get_r t c <= max_r t /\ 0 <= get_g t c <= max_g t /\ 0 <= get_b t c <= max_b t.
+Proof. intros H Hr Hv. apply (new_of_channels_wf t H Hr c Hv). Qed.
+
+(* new() of in-range channels returns them *)
+Lemma rgb_new_small t r g b : row_wf t = true -> chan_pos t = true -> is_rgb t = true ->
+  0 <= r <= max_r t -> 0 <= g <= max_g t -> 0 <= b <= max_b t ->
+  get_r t (rgb_new t r g b) = r /\ get_g t (rgb_new t r g b) = g /\ get_b t (rgb_new t r g b) = b /\ valid t (rgb_new t r g b).
+Proof.
+  intros H Hp Hr Rr Rg Rb. destruct (rgb_max t H Hp Hr) as ((? & Er) & (? & Eg) & (? & Eb)).
+  destruct (new_channels_wf t H Hr r g b) as (-> & -> & -> & Hv).
+  rewrite !Z.mod_small by lia. auto.
+Qed.
+
+(* ================================================================= 11. C13: conversions, channel by channel *)
+Section ConvRows.
+  Variables a b : crow.
+  Hypothesis Wa : row_wf a = true.
+  Hypothesis Wb : row_wf b = true.
+  Hypothesis Pa : chan_pos a = true.
+  Hypothesis Pb : chan_pos b = true.
+
+  Lemma conv_rgb_rgb_channels c : is_rgb a = true -> is_rgb b = true -> valid a c ->
+    let c' := conv_rgb_rgb a b c in
+    valid b c' /\
+    get_r b c' = convert_channel (max_r a) (max_r b) (get_r a c) /\
+    get_g b c' = convert_channel (max_g a) (max_g b) (get_g a c) /\
+    get_b b c' = convert_channel (max_b a) (max_b b) (get_b a c).
+  Proof.
+    intros Ra Rb Hv. destruct (rgb_max a Wa Pa Ra) as ((Har & Ear) & (Hag & Eag) & (Hab & Eab)).
+    destruct (rgb_max b Wb Pb Rb) as ((Hbr & Ebr) & (Hbg & Ebg) & (Hbb & Ebb)).
+    destruct (rgb_chan_range a c Wa Ra Hv) as (Cr & Cg & Cb).
+    cbv zeta. unfold conv_rgb_rgb.
+    rewrite Ear in Cr. rewrite Eag in Cg. rewrite Eab in Cb.
+    destruct (cc_spec _ _ _ Har Hbr Cr) as (B1 & _).
+    destruct (cc_spec _ _ _ Hag Hbg Cg) as (B2 & _).
+    destruct (cc_spec _ _ _ Hab Hbb Cb) as (B3 & _).
+    cbv zeta in B1, B2, B3. rewrite <- Ear, <- Ebr in B1. rewrite <- Eag, <- Ebg in B2. rewrite <- Eab, <- Ebb in B3.
+    destruct (rgb_new_small b _ _ _ Wb Pb Rb B1 B2 B3) as (-> & -> & -> & V). auto.
+  Qed.
+
+  Lemma conv_gray_gray_channels c : is_gray a = true -> is_gray b = true -> valid a c ->
+    let c' := conv_gray_gray a b c in
+    valid b c' /\ luma_of b c' = convert_channel (max_luma a) (max_luma b) (luma_of a c).
+  Proof.
+    intros Ga Gb Hv. destruct (gray_max a Wa Ga) as (Ha & Ea & Va). destruct (gray_max b Wb Gb) as (Hb & Eb & Vb).
+    apply Va in Hv. cbv zeta. unfold conv_gray_gray.
+    destruct (gray_new_wf b Wb Gb (convert_channel (max_luma a) (max_luma b) (luma_of a c))) as (-> & V & _).
+    split; [exact V|]. rewrite Ea in Hv.
+    destruct (cc_spec _ _ _ Ha Hb Hv) as (B1 & _). cbv zeta in B1. rewrite Ea, Eb.
+    apply Z.mod_small. clear - B1. lia.
+  Qed.
+
+  Lemma conv_gray_rgb_channels c : is_gray a = true -> is_rgb b = true -> valid a c ->
+    let c' := conv_gray_rgb a b c in
+    valid b c' /\
+    get_r b c' = convert_channel (max_luma a) (max_r b) (luma_of a c) /\
+    get_g b c' = convert_channel (max_luma a) (max_g b) (luma_of a c) /\
+    get_b b c' = convert_channel (max_luma a) (max_b b) (luma_of a c).
+  Proof.
+    intros Ga Rb Hv. destruct (gray_max a Wa Ga) as (Ha & Ea & Va). apply Va in Hv.
+    destruct (rgb_max b Wb Pb Rb) as ((Hbr & Ebr) & (Hbg & Ebg) & (Hbb & Ebb)).
+    cbv zeta. unfold conv_gray_rgb. rewrite Ea in Hv.
+    destruct (cc_spec _ _ _ Ha Hbr Hv) as (B1 & _).
+    destruct (cc_spec _ _ _ Ha Hbg Hv) as (B2 & _).
+    destruct (cc_spec _ _ _ Ha Hbb Hv) as (B3 & _).
+    cbv zeta in B1, B2, B3. rewrite <- Ea, <- Ebr in B1. rewrite <- Ea, <- Ebg in B2. rewrite <- Ea, <- Ebb in B3.
+    destruct (rgb_new_small b _ _ _ Wb Pb Rb B1 B2 B3) as (-> & -> & -> & V). auto.
+  Qed.
+End ConvRows.
